@@ -1,7 +1,182 @@
 package main
 
-import "verifharness/hx"
+// Sparse solver tie: analysis/dfa/sparse.Instance.Forward is driven on real ir.Functions (built by the real
+// buildir pass from generated Go sources) with a harness transfer function over a bitset lattice that writes
+// only the instruction's own value and reads only its operands (the writes_self premise).
 
-type SparseCase struct{}
+import (
+	"fmt"
+	"hash/fnv"
+	"os"
+	"path/filepath"
+	"sort"
+	"sync"
 
-func runSparse(r *hx.Rand, work string, n int) ([]SparseCase, string) { return nil, "not built yet" }
+	"golang.org/x/tools/go/analysis"
+	"honnef.co/go/tools/analysis/dfa/sparse"
+	"honnef.co/go/tools/config"
+	"honnef.co/go/tools/go/ir"
+	"honnef.co/go/tools/verifhooks"
+	"verifharness/hx"
+)
+
+type SDesc struct {
+	Kind      string // none | gen | copy
+	Gen, Kill uint64
+}
+type SInstr struct {
+	Ops  []int
+	Phi  bool
+	Desc SDesc
+}
+type SparseCase struct {
+	Name     string
+	Instrs   []SInstr
+	Ext      [][2]uint64
+	Impl     [][2]uint64
+	Diverged bool
+}
+
+func sparseOne(seed uint64, fn *ir.Function) (c SparseCase) {
+	h := fnv.New64a()
+	h.Write([]byte(fn.String()))
+	r := hx.NewRand(seed ^ h.Sum64())
+	instrs, sk, exts := hx.SparseSkeleton(fn)
+	c.Name = fn.String()
+	idx := map[ir.Instruction]int{}
+	for i, in := range instrs {
+		idx[in] = i
+	}
+	rb := func(p int) uint64 {
+		var x uint64
+		for i := uint(0); i < 8; i++ {
+			if r.Chance(p) {
+				x |= 1 << i
+			}
+		}
+		return x
+	}
+	// operand values per instruction, in skeleton order
+	opVals := make([][]ir.Value, len(instrs))
+	var ops []*ir.Value
+	for i, in := range instrs {
+		if phi, ok := in.(*ir.Phi); ok {
+			opVals[i] = append(opVals[i], phi.Edges...)
+			continue
+		}
+		ops = in.Operands(ops[:0])
+		for _, p := range ops {
+			if *p != nil {
+				opVals[i] = append(opVals[i], *p)
+			}
+		}
+	}
+	c.Instrs = make([]SInstr, len(instrs))
+	for i, in := range instrs {
+		c.Instrs[i] = SInstr{Ops: sk[i].Ops, Phi: sk[i].Phi, Desc: SDesc{Kind: "none"}}
+		if _, ok := in.(ir.Value); !ok || sk[i].Phi {
+			continue
+		}
+		switch k := r.Intn(10); {
+		case k < 5:
+			c.Instrs[i].Desc = SDesc{Kind: "gen", Gen: rb(15), Kill: rb(20)}
+		case k < 8 && len(sk[i].Ops) > 0:
+			c.Instrs[i].Desc = SDesc{Kind: "copy"}
+		}
+	}
+	ins := &sparse.Instance[bitsL, bits]{Mapping: map[ir.Value]sparse.Mapping[bits]{}}
+	for k, v := range exts {
+		if r.Chance(50) {
+			b := rb(30)
+			if b != 0 {
+				ins.Set(v, bits(b))
+				c.Ext = append(c.Ext, [2]uint64{uint64(len(instrs) + k), b})
+			}
+		}
+	}
+	calls := 0
+	ins.Transfer = func(ins *sparse.Instance[bitsL, bits], in ir.Instruction) []sparse.Mapping[bits] {
+		calls++
+		if calls > budget {
+			panic(diverged{})
+		}
+		i := idx[in]
+		v, ok := in.(ir.Value)
+		if !ok {
+			return nil
+		}
+		switch d := c.Instrs[i].Desc; d.Kind {
+		case "gen":
+			var u bits
+			for _, o := range opVals[i] {
+				u |= ins.Value(o)
+			}
+			return []sparse.Mapping[bits]{{Value: v, State: bits(d.Gen) | (u &^ bits(d.Kill))}}
+		case "copy":
+			return []sparse.Mapping[bits]{{Value: v, State: ins.Value(opVals[i][0])}}
+		}
+		return nil
+	}
+	func() {
+		defer func() {
+			if e := recover(); e != nil {
+				if _, ok := e.(diverged); ok {
+					c.Diverged = true
+					return
+				}
+				panic(e)
+			}
+		}()
+		ins.Forward(fn)
+	}()
+	for i, in := range instrs {
+		if v, ok := in.(ir.Value); ok {
+			if m, ok := ins.Mapping[v]; ok && m.State != 0 {
+				c.Impl = append(c.Impl, [2]uint64{uint64(i), uint64(m.State)})
+			}
+		}
+	}
+	return
+}
+
+func runSparse(r *hx.Rand, work string, n int) ([]SparseCase, string) {
+	dir := filepath.Join(work, "sparsemod")
+	hx.GenNilModule(r.Fork(), dir, (n+1)/2, (n+1)/2)
+	seed := r.Uint64()
+	var mu sync.Mutex
+	var cases []SparseCase
+	an := &analysis.Analyzer{
+		Name:     "verifsparse",
+		Doc:      "drives the sparse solver",
+		Requires: []*analysis.Analyzer{verifhooks.BuildIR},
+		Run: func(pass *analysis.Pass) (any, error) {
+			if pass.Pkg.Path() != "example.com/nilgen/a" && pass.Pkg.Path() != "example.com/nilgen/b" {
+				return nil, nil
+			}
+			irp := pass.ResultOf[verifhooks.BuildIR].(*verifhooks.IR)
+			for _, fn := range irp.SrcFuncs {
+				if fn.Blocks == nil {
+					continue
+				}
+				c := sparseOne(seed, fn)
+				mu.Lock()
+				cases = append(cases, c)
+				mu.Unlock()
+			}
+			return nil, nil
+		},
+	}
+	res, err := hx.RunAnalyzers(dir, filepath.Join(work, "sparsecache"), "module", config.DefaultConfig, []*analysis.Analyzer{an}, nil, "./a", "./b")
+	if err != nil {
+		fmt.Fprintln(os.Stderr, "sparse: run failed:", err)
+		os.Exit(2)
+	}
+	for _, x := range res {
+		if x.Failed {
+			fmt.Fprintln(os.Stderr, "sparse: package failed:", x.Errors)
+			os.Exit(2)
+		}
+	}
+	sort.Slice(cases, func(i, j int) bool { return cases[i].Name < cases[j].Name })
+	return cases, "sparse.Instance.Forward on real ir.Functions built by buildir from generated sources; referrers are the IR's own Referrers() lists, the model derives them from operands"
+}
